@@ -450,7 +450,7 @@ def rdTxn (rd : VExpr → VExpr) (t : Transaction) : Transaction :=
 structure PTxn (P : VExpr → Prop) (t : Transaction) : Prop where
   date : wfDate t.date = true
   eff : ∀ d, t.effectiveDate = some d → wfDate d = true
-  code : ∀ c, t.code = some c → ∀ x ∈ c.toList, x ≠ ')'
+  code : ∀ c, t.code = some c → ∀ x ∈ c.toList, isParenStrStop x = false
   payee : wfPayee t = true
   mds : ∀ m ∈ t.metadata, wfMetadata m = true
   posts : ∀ p ∈ t.posts, PPosting P p
@@ -514,16 +514,10 @@ theorem transaction_rd (hE : ExprRd P rd) (w : List Char → Nat) (t : Transacti
         rw [hpl] at hm
         simpa [notClearMarkStart, isClearMark] using hm)
   have h6 := codeParser_rt t.code ht.code (t.payee.toList ++ '\n' :: Zm) hpstop (by
-    intro hc r e
+    intro hc
     rw [hc] at hp4
     simp only [Option.isSome_none, Bool.false_or, Bool.and_eq_true] at hp4
-    have hh := hp4.2
-    cases hpl : t.payee.toList with
-    | nil => rw [hpl] at e; cases e
-    | cons c r' =>
-      rw [hpl] at e hh
-      cases e
-      simp at hh)
+    exact noCodeAhead_payee hpchars hp4.2 Zm)
   have h7 := payeeParser_rt t.payee.toList hpchars hp3 Zm
   have hmsZp : metaStop Zp = true := by
     rw [hZp]
